@@ -91,6 +91,8 @@ func computedFrom(v ssa.Value, src func(ssa.Value) bool, stop ...func(ssa.Value)
 			}
 		case *ssa.UnOp:
 			return rec(x.X, d+1)
+		case *ssa.BinOp:
+			return rec(x.X, d+1) || rec(x.Y, d+1)
 		case *ssa.Extract:
 			return rec(x.Tuple, d+1)
 		case *ssa.ChangeType:
@@ -1050,4 +1052,586 @@ func runC09XYOnly(c *Ctx) {
 		})
 	}
 	c.Triv(token.NoPos, "-", "summary", fmt.Sprintf("%d functions of the Intersects/Distance kernels examined", n))
+}
+
+// ---------------------------------------------------------------------------
+// C07.varintwrite: the TWKB writer's varints are the standard encoding
+// ---------------------------------------------------------------------------
+
+func init() {
+	register(&Rule{
+		ID:    "C07.varintwrite",
+		Props: []string{"C07", "C08"},
+		Doc:   "what the TWKB writer appends for a count or a delta is the standard base-128 varint: writeUnsignedVarint and writeSignedVarint interpreted (binary.PutUvarint / PutVarint modelled exactly) for values around every byte boundary — 0, 1, 63, 64, 127, 128, 129, 255, 300, 16383, 16384, 2^32 and their negatives — append exactly the bytes of the canonical encoding; a hand-written single-byte fast path with the boundary off by one (`val <= 0x80`) writes a lone continuation byte for 128 and the decoder swallows the next field",
+		Floor: 2,
+		Run:   runC07VarintWrite,
+	})
+}
+
+func runC07VarintWrite(c *Ctx) {
+	uvarint := func(v uint64) []byte {
+		var out []byte
+		for v >= 0x80 {
+			out = append(out, byte(v)|0x80)
+			v >>= 7
+		}
+		return append(out, byte(v))
+	}
+	zigzag := func(v int64) uint64 { return uint64(v<<1) ^ uint64(v>>63) }
+	vals := []int64{0, 1, 63, 64, 127, 128, 129, 255, 300, 16383, 16384, 1 << 32}
+	for _, w := range []struct {
+		name   string
+		signed bool
+	}{{"writeUnsignedVarint", false}, {"writeSignedVarint", true}} {
+		f := c.P.Func("geom.(*twkbWriter)." + w.name)
+		if f == nil {
+			c.Errorf("anchor geom.(*twkbWriter).%s does not resolve", w.name)
+			continue
+		}
+		problem, undec := "", ""
+		var tests []int64
+		for _, v := range vals {
+			tests = append(tests, v)
+			if w.signed && v != 0 {
+				tests = append(tests, -v)
+			}
+		}
+		for _, v := range tests {
+			want := uvarint(uint64(v))
+			if w.signed {
+				want = uvarint(zigzag(v))
+			}
+			m := &Model{Num: map[string]float64{}, Bool: map[string]bool{}, Missing: map[string]bool{}}
+			it := &k4interp{p: c.P, m: m, mem: map[string]k4val{}}
+			it.mem["$0.twkbContents"] = k4val{kind: 8, s: "OUT", ln: 0, cp: 0}
+			lastN := -1
+			it.onOpaque = func(name string, args []k4val) {
+				if (name == "encoding/binary.PutUvarint" || name == "encoding/binary.PutVarint") && len(args) == 2 && args[0].kind == 8 && args[1].kind == 2 {
+					var enc []byte
+					if name == "encoding/binary.PutVarint" {
+						enc = uvarint(zigzag(int64(args[1].f)))
+					} else {
+						enc = uvarint(uint64(args[1].f))
+					}
+					for i, b := range enc {
+						it.mem[fmt.Sprintf("%s[%d]", args[0].s, args[0].off+i)] = k4val{kind: 2, f: float64(b)}
+					}
+					lastN = len(enc)
+				}
+			}
+			it.answer = func(key string, isBool bool) (k4val, bool) {
+				if !isBool && (strings.HasPrefix(key, "encoding/binary.PutUvarint(") || strings.HasPrefix(key, "encoding/binary.PutVarint(")) && lastN >= 0 {
+					return k4val{kind: 2, f: float64(lastN)}, true
+				}
+				return k4val{}, false
+			}
+			if _, err := it.call(f, []k4val{{kind: 3, s: "$0"}, {kind: 2, f: float64(v)}}, nil); err != nil {
+				undec = fmt.Sprintf("value %d: %v %s", v, err, missingList(m))
+				break
+			}
+			out, ok := it.mem["$0.twkbContents"]
+			if !ok || out.kind != 8 {
+				undec = fmt.Sprintf("value %d: the writer's contents are not a byte list afterwards", v)
+				break
+			}
+			var got []byte
+			known := true
+			for i := 0; i < out.ln; i++ {
+				e, ok := it.mem[fmt.Sprintf("%s[%d]", out.s, out.off+i)]
+				if !ok || e.kind != 2 {
+					known = false
+					break
+				}
+				got = append(got, byte(int64(e.f)))
+			}
+			if !known {
+				undec = fmt.Sprintf("value %d: a byte appended to the contents is not known", v)
+				break
+			}
+			if fmt.Sprint(got) != fmt.Sprint(want) {
+				problem = fmt.Sprintf("for the value %d the writer appends % x; the varint encoding is % x", v, got, want)
+				break
+			}
+		}
+		reportK4(c, f, "bytes appended for a value", undec, problem, fmt.Sprintf("the canonical varint for all %d values around the byte boundaries", len(tests)))
+	}
+}
+
+// ---------------------------------------------------------------------------
+// C04.count: the WKB member count is the number of members written
+// ---------------------------------------------------------------------------
+
+func init() {
+	register(&Rule{
+		ID:    "C04.count",
+		Props: []string{"C04", "C08"},
+		Doc:   "a WKB count announces exactly the members that follow: AppendWKB of Polygon, MultiPoint, MultiLineString, MultiPolygon and GeometryCollection, interpreted on modelled member lists of length 0..3 (any other count the type offers, such as the recursive NumTotalGeometries, is modelled as a different number), hands writeCount the number of direct members and then writes exactly that many members — otherwise the decoder reads past the end or leaves bytes over",
+		Floor: 5,
+		Run:   runC04Count,
+	})
+}
+
+func runC04Count(c *Ctx) {
+	for _, t := range []struct{ typ, field string }{
+		{"Polygon", "rings"}, {"MultiPoint", "points"}, {"MultiLineString", "lines"}, {"MultiPolygon", "polys"}, {"GeometryCollection", "geoms"},
+	} {
+		f := c.P.Func("geom.(" + t.typ + ").AppendWKB")
+		if f == nil {
+			c.Errorf("anchor geom.(%s).AppendWKB does not resolve", t.typ)
+			continue
+		}
+		inl := func(g *ssa.Function) bool {
+			if g.Signature.Recv() == nil || namedName(g.Signature.Recv().Type()) != t.typ {
+				return false
+			}
+			n := g.Name()
+			// the accessors of the direct members (NumPoints/PointN, NumGeometries/GeometryN, …), not the recursive totals
+			return (strings.HasPrefix(n, "Num") && !strings.Contains(n, "Total") && n != "NumRings") || (strings.HasSuffix(n, "N") && !strings.HasPrefix(n, "Num")) || n == "CoordinatesType"
+		}
+		problem, undec := "", ""
+		for n := 0; n <= 3 && problem == "" && undec == ""; n++ {
+			m := &Model{Num: map[string]float64{"$0.ctype": 0}, Bool: map[string]bool{}, Missing: map[string]bool{}}
+			it := &k4interp{p: c.P, m: m, mem: map[string]k4val{}, inline: inl}
+			it.mem["$0."+t.field] = k4val{kind: 8, s: "MEM", ln: n, cp: n}
+			for i := 0; i < n; i++ {
+				it.mem[fmt.Sprintf("MEM[%d]", i)] = k4val{kind: 3, s: fmt.Sprintf("MEM[%d]", i)}
+			}
+			announced, members := -1.0, 0
+			it.onOpaque = func(name string, args []k4val) {
+				switch {
+				case strings.HasSuffix(name, ").writeCount") && len(args) == 2 && args[1].kind == 2:
+					announced = args[1].f
+				case strings.HasSuffix(name, ").AppendWKB") || strings.HasSuffix(name, ").writeSequence"):
+					members++
+				}
+			}
+			it.answer = func(key string, isBool bool) (k4val, bool) {
+				// any other count the type offers is some other number
+				if !isBool && strings.Contains(key, ").Num") {
+					return k4val{kind: 2, f: float64(n + 5)}, true
+				}
+				return k4val{}, false
+			}
+			if _, err := it.call(f, []k4val{{kind: 3, s: "$0"}, {kind: 8, s: "DST", ln: 0, cp: 0}}, nil); err != nil {
+				undec = fmt.Sprintf("%d members: %v %s", n, err, missingList(m))
+				break
+			}
+			if announced != float64(n) || members != n {
+				problem = fmt.Sprintf("with %d direct members the count written is %v and %d members are written after it", n, announced, members)
+			}
+		}
+		reportK4(c, f, "count and members written", undec, problem, "count = number of direct members = members written, for 0..3 members")
+	}
+}
+
+// ---------------------------------------------------------------------------
+// C12.convert: AsBox and TransformXY
+// ---------------------------------------------------------------------------
+
+func init() {
+	register(&Rule{
+		ID:    "C12.convert",
+		Props: []string{"C12"},
+		Doc:   "Envelope.AsBox reports ok exactly for non-empty envelopes — degenerate ones (a point, an axis-parallel line) included — with the four bounds copied; Envelope.TransformXY of a non-empty envelope is the per-axis min/max of the two transformed corners (so a transform that flips one axis still gives min <= max on both), and the empty envelope stays empty: both interpreted over every weak ordering of the values involved",
+		Floor: 2,
+		Run:   runC12Convert,
+	})
+}
+
+func runC12Convert(c *Ctx) {
+	inl := func(g *ssa.Function) bool {
+		switch FuncName(g) {
+		case "geom.(Envelope).IsEmpty", "geom.fastMin", "geom.fastMax", "geom.(Envelope).MinMaxXYs", "geom.newUncheckedEnvelope", "geom.(Envelope).IsPoint", "geom.(Envelope).IsLine", "geom.(Envelope).IsRectangle":
+			return true
+		}
+		return false
+	}
+	if f := c.P.Func("geom.(Envelope).AsBox"); f == nil {
+		c.Errorf("anchor geom.(Envelope).AsBox does not resolve")
+	} else {
+		problem, undec := "", ""
+		models := 0
+		k4enumerate([]string{"$0.min.X", "$0.min.Y", "$0.max.X", "$0.max.Y"}, []float64{0, 1, 3}, []string{"$0.nonEmpty"}, func(m *Model) bool {
+			if !envValid(m) {
+				return true
+			}
+			models++
+			m.Missing = map[string]bool{}
+			it := &k4interp{p: c.P, m: m, mem: map[string]k4val{}, inline: inl}
+			res, err := it.call(f, []k4val{{kind: 3, s: "$0"}}, nil)
+			if err != nil || len(res) != 2 || res[1].kind != 1 {
+				undec = fmt.Sprintf("%v %v %s", err, res, missingList(m))
+				return false
+			}
+			ne := m.Bool["$0.nonEmpty"]
+			if res[1].b != ne {
+				problem = fmt.Sprintf("for %s AsBox reports ok=%v; a non-empty envelope (also a point or a line) converts, the empty one does not", modelString(m), res[1].b)
+				return false
+			}
+			if ne {
+				for _, fk := range [][2]string{{"MinX", "$0.min.X"}, {"MinY", "$0.min.Y"}, {"MaxX", "$0.max.X"}, {"MaxY", "$0.max.Y"}} {
+					v, err := it.lookup(res[0].s+"."+fk[0], types.Typ[types.Float64])
+					if err != nil || v.kind != 2 || v.f != m.Num[fk[1]] {
+						problem = fmt.Sprintf("for %s the box's %s is %s, expected %v", modelString(m), fk[0], v, m.Num[fk[1]])
+						return false
+					}
+				}
+			}
+			return true
+		})
+		reportK4(c, f, "conversion to an rtree box", undec, problem, fmt.Sprintf("ok iff non-empty, bounds copied, in all %d models", models))
+	}
+	if f := c.P.Func("geom.(Envelope).TransformXY"); f == nil {
+		c.Errorf("anchor geom.(Envelope).TransformXY does not resolve")
+	} else {
+		problem, undec := "", ""
+		models := 0
+		k4enumerate([]string{"FN1.X", "FN1.Y", "FN2.X", "FN2.Y"}, []float64{0, 1, 2}, []string{"$0.nonEmpty"}, func(m *Model) bool {
+			models++
+			m.Missing = map[string]bool{}
+			for k, v := range map[string]float64{"$0.min.X": 0, "$0.min.Y": 0, "$0.max.X": 1, "$0.max.Y": 1} {
+				m.Num[k] = v
+			}
+			it := &k4interp{p: c.P, m: m, mem: map[string]k4val{}, inline: inl}
+			calls := 0
+			it.opaqueCall = func(args []k4val) (string, bool) {
+				if len(args) == 1 {
+					calls++
+					return fmt.Sprintf("FN%d", calls), true
+				}
+				return "", false
+			}
+			res, err := it.call(f, []k4val{{kind: 3, s: "$0"}, {kind: 3, s: "$fn"}}, nil)
+			if err != nil || len(res) != 1 {
+				undec = fmt.Sprintf("%v %v %s", err, res, missingList(m))
+				return false
+			}
+			rd := func(k string, t types.Type) (k4val, bool) {
+				if res[0].s == "zero" {
+					return zeroOf(t), true
+				}
+				v, err := it.lookup(res[0].s+"."+k, t)
+				return v, err == nil
+			}
+			ne, ok := rd("nonEmpty", boolT)
+			if !ok || ne.kind != 1 || ne.b != m.Bool["$0.nonEmpty"] {
+				problem = fmt.Sprintf("for %s the transformed envelope's non-empty flag is %s", modelString(m), ne)
+				return false
+			}
+			if !m.Bool["$0.nonEmpty"] {
+				return true
+			}
+			if calls != 2 {
+				undec = fmt.Sprintf("the transform is applied %d times, not to the two corners", calls)
+				return false
+			}
+			mn := func(a, b float64) float64 {
+				if a < b {
+					return a
+				}
+				return b
+			}
+			mx := func(a, b float64) float64 {
+				if a > b {
+					return a
+				}
+				return b
+			}
+			want := map[string]float64{
+				"min.X": mn(m.Num["FN1.X"], m.Num["FN2.X"]), "min.Y": mn(m.Num["FN1.Y"], m.Num["FN2.Y"]),
+				"max.X": mx(m.Num["FN1.X"], m.Num["FN2.X"]), "max.Y": mx(m.Num["FN1.Y"], m.Num["FN2.Y"]),
+			}
+			for k, w := range want {
+				v, ok := rd(k, types.Typ[types.Float64])
+				if !ok || v.kind != 2 {
+					undec = fmt.Sprintf("the result's %s cannot be read back (%s): the envelope is not built from per-axis minima and maxima in a form this rule can follow", k, v)
+					return false
+				}
+				if v.f != w {
+					problem = fmt.Sprintf("with the corners transformed to (%v %v) and (%v %v) the result's %s is %s; the per-axis min/max gives %v (a transform that flips one axis must still yield min <= max)", m.Num["FN1.X"], m.Num["FN1.Y"], m.Num["FN2.X"], m.Num["FN2.Y"], k, v, w)
+					return false
+				}
+			}
+			return true
+		})
+		reportK4(c, f, "transformed envelope", undec, problem, fmt.Sprintf("per-axis min/max of the two transformed corners, in all %d models", models))
+	}
+}
+
+// ---------------------------------------------------------------------------
+// C10.sortless: the comparator of sort.Slice reads the slice being sorted
+// ---------------------------------------------------------------------------
+
+func init() {
+	register(&Rule{
+		ID:    "C10.sortless",
+		Props: []string{"C10", "C01", "C13"},
+		Doc:   "the comparison function handed to sort.Slice / sort.SliceStable indexes the slice that is being sorted: a less(i, j) that reads only some other slice (a sibling list that sort.Slice does not permute) compares stale positions, so the resulting order depends on the order the elements arrived in — for lists filled from a map, on the iteration order of the map",
+		Floor: 5,
+		Run:   runC10SortLess,
+	})
+}
+
+func runC10SortLess(c *Ctx) {
+	n := 0
+	for _, f := range c.P.Funcs {
+		if !c.P.InRepo(f) {
+			continue
+		}
+		eachCall(f, func(ci ssa.CallInstruction) {
+			name := calleeName(ci)
+			if name != "sort.Slice" && name != "sort.SliceStable" {
+				return
+			}
+			args := ci.Common().Args
+			if len(args) != 2 {
+				return
+			}
+			sorted := args[0]
+			if mi, ok := sorted.(*ssa.MakeInterface); ok {
+				sorted = mi.X
+			}
+			less := closureOf(args[1])
+			if less == nil || len(less.Params) != 2 {
+				return
+			}
+			n++
+			sortedPath, _ := accessPath(sorted)
+			// the variable a value is loaded from: a local cell, also when seen from a function literal that captured it
+			cellOf := func(v ssa.Value) ssa.Value {
+				ld, ok := v.(*ssa.UnOp)
+				if !ok || ld.Op != token.MUL {
+					return nil
+				}
+				addr := ld.X
+				for i := 0; i < 4; i++ {
+					fv, ok := addr.(*ssa.FreeVar)
+					if !ok {
+						break
+					}
+					fn := fv.Parent()
+					mc, ok := makeClosureOf(fn).(*ssa.MakeClosure)
+					if !ok {
+						return nil
+					}
+					var bind ssa.Value
+					for k, x := range fn.FreeVars {
+						if x == fv && k < len(mc.Bindings) {
+							bind = mc.Bindings[k]
+						}
+					}
+					if bind == nil {
+						return nil
+					}
+					addr = bind
+				}
+				if al, ok := addr.(*ssa.Alloc); ok {
+					return al
+				}
+				return nil
+			}
+			sortedCell := cellOf(sorted)
+			isIdx := func(v ssa.Value) bool {
+				return computedFrom(v, func(x ssa.Value) bool { return x == ssa.Value(less.Params[0]) || x == ssa.Value(less.Params[1]) })
+			}
+			var bases []string
+			readsSorted := false
+			note := func(base ssa.Value, idx ssa.Value) {
+				if !isIdx(idx) {
+					return
+				}
+				bs, _ := accessPath(base)
+				bases = append(bases, bs)
+				if bs == sortedPath || computedFrom(base, func(x ssa.Value) bool { return x == sorted }) {
+					readsSorted = true
+				}
+				if bc := cellOf(base); bc != nil && bc == sortedCell {
+					readsSorted = true
+				}
+			}
+			usesIndexes := false
+			var scan func(g *ssa.Function)
+			scan = func(g *ssa.Function) {
+				eachInstr(g, func(in ssa.Instruction) {
+					switch x := in.(type) {
+					case *ssa.IndexAddr:
+						note(x.X, x.Index)
+					case *ssa.Index:
+						note(x.X, x.Index)
+					case ssa.CallInstruction:
+						// the indexes handed to an accessor or helper (seq.GetXY(i), lessAt(xs, i, j)): not judged
+						for _, a := range x.Common().Args {
+							if isIntegerT(a.Type()) && isIdx(a) {
+								usesIndexes = true
+							}
+						}
+					}
+				})
+				for _, a := range g.AnonFuncs {
+					scan(a)
+				}
+			}
+			scan(less)
+			construct := "comparator of " + name + "(" + trunc(sortedPath) + ")"
+			switch {
+			case readsSorted:
+				c.OK(ci.Pos(), FuncName(f), construct, "indexes the slice being sorted")
+			case len(bases) == 0:
+				if usesIndexes {
+					c.Triv(ci.Pos(), FuncName(f), construct, "the indexes are handed to accessors / helpers, not used on a slice directly")
+				} else {
+					c.Triv(ci.Pos(), FuncName(f), construct, "does not index any slice")
+				}
+			default:
+				c.Bad(ci.Pos(), FuncName(f), construct, "the comparison function indexes "+strings.Join(bases, ", ")+" and never the slice being sorted ("+sortedPath+"): sort.Slice permutes only its argument, so positions in the other list go stale after the first swap and the final order depends on the order of arrival")
+			}
+		})
+	}
+	if n < 5 {
+		c.Errorf("only %d sort.Slice calls found", n)
+	}
+}
+
+// ---------------------------------------------------------------------------
+// C14.signedcompare: a signed area is compared for its sign only
+// ---------------------------------------------------------------------------
+
+func init() {
+	register(&Rule{
+		ID:    "C14.signedcompare",
+		Props: []string{"C14", "C03", "C17"},
+		Doc:   "the sign of a ring's signed area is its winding direction, not a size: a value of signedAreaOfLinearRing that has not passed through math.Abs is ordered (<, <=, >, >=) only against zero — ordering two signed areas against each other (\"the smaller ring is the inner one\") gives an answer that flips with the winding direction of the input",
+		Floor: 1,
+		Run:   runC14SignedCompare,
+	})
+}
+
+func runC14SignedCompare(c *Ctx) {
+	n := 0
+	var isSignedD func(v ssa.Value, d int) bool
+	isSigned := func(v ssa.Value) bool { return isSignedD(v, 0) }
+	isSignedD = func(v ssa.Value, d int) bool {
+		return computedFrom(v, func(x ssa.Value) bool {
+			call, ok := x.(*ssa.Call)
+			if !ok {
+				return false
+			}
+			if calleeName(call) == "geom.signedAreaOfLinearRing" {
+				return true
+			}
+			// a helper (introduced since the baseline) that hands a signed area back
+			if h := staticCallee(call); h != nil && isNewHelper(h) && d < 2 && isFloat(call.Type()) {
+				for _, r := range returnsOf(h) {
+					if len(r.Results) == 1 && isSignedD(r.Results[0], d+1) {
+						return true
+					}
+				}
+			}
+			return false
+		}, func(x ssa.Value) bool {
+			// |x|, x*x and comparisons lose the sign
+			if call, ok := x.(*ssa.Call); ok {
+				nm := calleeName(call)
+				return nm == "math.Abs" || nm == "geom.(Polygon).Area" || nm == "geom.(MultiPolygon).Area"
+			}
+			if bo, ok := x.(*ssa.BinOp); ok && bo.Op == token.MUL && (bo.X == bo.Y || sameValue(bo.X, bo.Y)) {
+				return true
+			}
+			return !isFloat(x.Type())
+		})
+	}
+	isZero := func(v ssa.Value) bool {
+		cst, ok := v.(*ssa.Const)
+		if !ok || cst.Value == nil {
+			return false
+		}
+		f, ok := constantFloat(cst)
+		return ok && f == 0
+	}
+	for _, f := range c.P.Funcs {
+		if pkgOf(f) != "geom" {
+			continue
+		}
+		eachInstr(f, func(in ssa.Instruction) {
+			bo, ok := in.(*ssa.BinOp)
+			if !ok || !isFloat(bo.X.Type()) {
+				return
+			}
+			switch bo.Op {
+			case token.LSS, token.LEQ, token.GTR, token.GEQ:
+			default:
+				return
+			}
+			sx, sy := isSigned(bo.X), isSigned(bo.Y)
+			if !sx && !sy {
+				return
+			}
+			n++
+			construct := "ordering of a signed ring area"
+			switch {
+			case (sx && isZero(bo.Y)) || (sy && isZero(bo.X)):
+				c.OK(bo.Pos(), FuncName(f), construct, "compared with zero: a test of the winding direction")
+			default:
+				xs, _ := accessPath(bo.X)
+				ys, _ := accessPath(bo.Y)
+				c.Bad(bo.Pos(), FuncName(f), construct, "a signed area ("+trunc(xs)+" "+bo.Op.String()+" "+trunc(ys)+") is ordered against something other than zero without math.Abs: the outcome flips with the winding direction of the ring")
+			}
+		})
+	}
+	if n < 1 {
+		c.Errorf("no ordering comparison of a signed ring area found (expected IsCW / IsCCW / forceOrientation)")
+	}
+}
+
+// ---------------------------------------------------------------------------
+// C18.measures: ExactEquals decides on coordinates, not on derived measures
+// ---------------------------------------------------------------------------
+
+func init() {
+	register(&Rule{
+		ID:    "C18.measures",
+		Props: []string{"C18"},
+		Doc:   "ExactEquals is decided by comparing control points: no method of exactEqualsComparator (nor a function literal or helper of one) consults a derived floating-point measure of its operands — Area, Length, Centroid, Distance, Envelope — to accept or reject a pair: a measure accumulated in ring order differs in the last bits between a ring and its rotation or reversal (and overflows for large ordinates), so a pre-rejection on `a.Area() != b.Area()` makes equal geometries unequal",
+		Floor: 0,
+		Run:   runC18Measures,
+	})
+}
+
+func runC18Measures(c *Ctx) {
+	banned := map[string]bool{"Area": true, "Length": true, "Centroid": true, "Distance": true, "Envelope": true, "signedAreaOfLinearRing": true}
+	n := 0
+	seen := map[*ssa.Function]bool{}
+	var fs []*ssa.Function
+	for _, m := range c.P.methodsOf("geom", "exactEqualsComparator") {
+		for _, g := range withNewHelpers(m) {
+			if !seen[g] {
+				seen[g] = true
+				fs = append(fs, g)
+			}
+			for _, a := range allAnon(g) {
+				if !seen[a] {
+					seen[a] = true
+					fs = append(fs, a)
+				}
+			}
+		}
+	}
+	for _, f := range fs {
+		n++
+		eachCall(f, func(ci ssa.CallInstruction) {
+			cal := staticCallee(ci)
+			if cal == nil || pkgOf(cal) != "geom" || !banned[cal.Name()] {
+				return
+			}
+			// Sequence.Length() is a count, not a measure
+			if cal.Signature.Recv() != nil && namedName(cal.Signature.Recv().Type()) == "Sequence" {
+				return
+			}
+			if !isFloat(cal.Signature.Results().At(0).Type()) && cal.Name() != "Envelope" && cal.Name() != "Centroid" {
+				return
+			}
+			c.Bad(ci.Pos(), FuncName(f), "derived measure "+cal.Name()+"() consulted", "the structural comparison consults "+FuncName(cal)+": a floating-point measure depends on the order in which the control points are accumulated, so geometries that are equal up to ring rotation / member order can be told apart by it (and large ordinates overflow it)")
+		})
+	}
+	c.Triv(token.NoPos, "-", "summary", fmt.Sprintf("%d functions of the structural comparison examined", n))
 }
